@@ -66,7 +66,7 @@ impl Property for C02 {
         (pair_strategy(), xf_strategy()).prop_map(|(Pair { a, b }, xf)| Case { a, b, xf, trusted: true }).boxed()
     }
     fn quota(tier: Tier) -> u64 {
-        tier.pick(300_000, 6_000_000)
+        tier.pick(1_000_000, 20_000_000)
     }
     fn rule() -> String {
         "Same pair generator as C01 (all 10 types + collections, coincidence-biased lattice scenes, integer matrix, exact \
